@@ -1,12 +1,13 @@
 --------------------------- MODULE MultiEventXCode ---------------------------
 (* Growth module X04, design level: frappy/lib/multievent.py statement by statement.  Every label is a source *)
-(* line of the pinned file (s81 = line 81 of multievent.py ...), one step per line, so that every place where  *)
-(* CPython may switch threads is a place where this model may.  Threads run scripts of public calls            *)
-(* (scenarios below).  Switches select between the code as it stands and the repaired design:                  *)
+(* line of the file as it stood before the repairs b07a78a / 520ac94 / cc1957e (s81 = line 81 ...), one step   *)
+(* per line, so that every place where CPython may switch threads is a place where this model may.  Threads    *)
+(* run scripts of public calls (scenarios below).  Switches select between the code as it stood (FALSE) and    *)
+(* the repaired design, which is what /repo contains now (TRUE; model-checked before the code was changed):    *)
 (*   FixLock   wait() takes the emptiness test + deadline() under self._lock; deadline() and waiting_for()     *)
-(*             iterate under the lock (as it stands: no lock at all on the reading side)                       *)
-(*   FixInit   _SingleEvent.__init__ sets name and deadline BEFORE it registers itself (as it stands: after)   *)
-(*   FixIsSet  _SingleEvent.is_set() == event not in multievent.events (as it stands: the opposite)            *)
+(*             iterate under the lock (b07a78a; before: no lock at all on the reading side)                    *)
+(*   FixInit   _SingleEvent.__init__ sets name and deadline BEFORE it registers itself (520ac94; before: after) *)
+(*   FixIsSet  _SingleEvent.is_set() == event not in multievent.events (cc1957e; before: the opposite)          *)
 (*   Locked    set_/clear_/queue hold self._lock (TRUE in the code; FALSE is a "must fail" mutation)           *)
 (* Iterating a Python set that changes size raises RuntimeError; reading an attribute that is not yet assigned *)
 (* raises AttributeError; both are modelled (err).                                                             *)
